@@ -42,6 +42,8 @@ def tasks_for(prop, tier):
     if prop == "C15":
         ts += [("json", "c15", K) for K in PRIMITIVES if ("c15", K) not in JSON_STANDIN]
         ts += [("json", "fromJson"), ("json", "hasKeys")]
+    if prop == "C16":
+        ts += [("json", "rt", K, s) for K in ("SparselyBin", "CentrallyBin", "Categorize") for s in (False, True)]
     if prop == "C06":
         ts += [("json", "tojson-frame", K) for K in PRIMITIVES if ("rt", K) not in JSON_STANDIN]
     return ts
@@ -140,9 +142,39 @@ def tojson_frame(P, K, prop, tier, out):
             s = r.st.fork()
             vc = smt.build_vc("json", s, frame_goal(s, pre))
             record(out, prop, fi.qualname, "ensures:frame", f"s{int(sup)}:p{i}", "live", vc, tier)
+        # reloading the fragment: the document, every object that existed before and the module-level default
+        # functions all aggregators share are unchanged; the reloaded container owns a quantity of its own
+        from_fi = P.lookup_method(K, "fromJsonFragment")
+        npaths = 0
+        for i, r in enumerate(res):
+            if r.exc is not None:
+                continue
+            mid = r.st.fork()
+            nm = quantity_name(pre, selfv) if sup else NONE
+            try:
+                r2 = X.run(r.st, from_fi, [r.v, nm])
+            except Unsupported as e:
+                out["out_of_reach"].append({"function": from_fi.qualname, "reason": str(e)})
+                break
+            npaths += len(r2)
+            for j, b in enumerate(r2):
+                if b.exc is not None:
+                    continue  # acceptance of the own output is C04's clause
+                pj = f"s{int(sup)}:p{i}.{j}"
+                s3 = b.st.fork()
+                vc = smt.build_vc("json", s3, frame_goal(s3, mid))
+                record(out, prop, from_fi.qualname, "ensures:frame", pj, "live", vc, tier)
+                q = b.st.obj(b.v).fields.get("quantity") if isinstance(b.v, VObj) and isinstance(b.st.obj(b.v), Inst) else None
+                own = q is None or not isinstance(q, VObj) or (q.oid in b.st.new_oids and q.oid not in mid.heap)
+                vc = smt.build_vc("json", b.st.fork(), z3.BoolVal(bool(own)))
+                record(out, prop, from_fi.qualname, "ensures:fresh-quantity", pj, "live", vc, tier)
+        if npaths:
+            add_function(out, from_fi, f"reload suppress={sup}", paths=npaths)
 
 
 def rt_task(P, K, sup, prop, tier, out, variant="live"):
+    if prop == "C16":
+        return rt_template_task(P, K, sup, prop, tier, out)
     to_fi = P.lookup_method(K, "toJsonFragment")
     from_fi = P.lookup_method(K, "fromJsonFragment")
     X = Exec(P, models.std_hooks())
@@ -227,6 +259,42 @@ def rt_task(P, K, sup, prop, tier, out, variant="live"):
                 goal = content_eq(s4, comp_of(s4, c.v), comp_of(s4, frag), "refrag")
                 vc = smt.build_vc("json", s4, goal)
                 rec(to_fi.qualname, "ensures:reserialises-identically", pk, vc)
+    add_function(out, from_fi, f"rt suppress={sup}", paths=npaths)
+
+
+def rt_template_task(P, K, sup, prop, tier, out):
+    """C16: the container rebuilt by fromJsonFragment / ed keeps the invariant the cross-reference walk relies on
+    (contracts.template_goal): the template it skips is not one of the reloaded bins"""
+    from .contracts import template_goal
+
+    to_fi = P.lookup_method(K, "toJsonFragment")
+    from_fi = P.lookup_method(K, "fromJsonFragment")
+    X = Exec(P, models.std_hooks())
+    st = State()
+    selfv = schema.make_instance(st, K, 1, opts={"catkeys": "str"} if K == "Categorize" else {})
+    pre = st.fork()
+    try:
+        r1 = X.run(st, to_fi, [selfv, VBool(sup)])
+    except Unsupported as e:
+        out["out_of_reach"].append({"function": to_fi.qualname, "reason": str(e)})
+        return
+    npaths = 0
+    for i, a in enumerate(r1):
+        if a.exc is not None:
+            continue
+        nm = quantity_name(pre, selfv) if sup else NONE
+        try:
+            r2 = X.run(a.st, from_fi, [a.v, nm])
+        except Unsupported as e:
+            out["out_of_reach"].append({"function": from_fi.qualname, "reason": str(e)})
+            return
+        npaths += len(r2)
+        for j, b in enumerate(r2):
+            if b.exc is not None:
+                continue
+            s3 = b.st.fork()
+            vc = smt.build_vc("json", s3, template_goal(s3, K, b.v))
+            record(out, prop, from_fi.qualname, "ensures:template-not-a-fill-slot", f"s{int(sup)}:p{i}.{j}", "live", vc, tier)
     add_function(out, from_fi, f"rt suppress={sup}", paths=npaths)
 
 
